@@ -59,7 +59,7 @@ SCHEMA_POS = {
     "nestedmap": lambda: {"type": "object", "properties": {"m": {"type": "object", "additionalProperties": {"type": "object", "properties": {"t": ref("Tgt")}}}}},
 }
 OP_POS = ["query", "header", "pathparam", "pathitem_query", "comp_param", "reqbody", "comp_reqbody", "respbody", "resp_array", "resp_default", "comp_response", "resp_map", "req_inline_prop",
-          "resp_binary_404", "resp_binary_default", "resp_text_500"]
+          "resp_binary_404", "resp_binary_default", "resp_text_500", "resp_inline_relaxed"]
 
 
 def build_spec(pos, kind):
@@ -131,6 +131,11 @@ def build_spec(pos, kind):
         holder_op["responses"]["default"] = {"description": "err", "content": {"application/pdf": {"schema": ref("Tgt")}}}
     elif pos == "resp_text_500":
         holder_op["responses"]["500"] = {"description": "err", "content": {"text/plain": {"schema": ref("Tgt")}}}
+    elif pos == "resp_inline_relaxed":
+        # an inline open enum (known values next to a free string) as a response body: its known-values enum is a helper
+        # type that only the conversion of the body produces
+        holder_op["responses"] = ok200({"anyOf": [{"type": "string", "enum": ["on", "off"]}, {"type": "string"}]})
+        holder_op["responses"]["404"] = {"description": "nf", "content": {"application/json": {"schema": {"oneOf": [{"title": "Gone", "type": "object", "properties": {"t": ref("Tgt")}}, {"type": "integer"}]}}}}
     elif pos == "comp_response":
         comps["responses"] = {"Resp": {"description": "r", "content": {"application/json": {"schema": ref("Tgt")}}}}
         holder_op["responses"] = {"200": {"$ref": "#/components/responses/Resp"}}
@@ -152,6 +157,8 @@ def applicable(pos, kind):
         return kind in ("object", "allofchild", "discbase")
     if pos == "discmap":
         return kind == "object"
+    if pos == "resp_inline_relaxed":
+        return kind in ("object", "strenum")
     if pos in ("inline_twin_null", "inline_twin_null_mapval"):
         return kind in ("union", "anyunion")
     if pos in ("pathparam",):
